@@ -223,7 +223,7 @@ def node_method(ex, w, name, args, kwargs, node_ast):
     chn = VNode(nd.tree, ch)
     # removing a child key detaches the whole subtree: the view stays faithful only
     # if that dict is empty (this is also what keeps stored names reachable)
-    ex.path.oblige(f'{ex.contract.qual}/tree/popped_dict_is_empty#{node_ast.lineno}',
+    ex.path.oblige(f'{ex.contract.qual}/tree/popped_dict_is_empty#{ex.at(node_ast)}',
                    z3.Not(chn.truthy()))
     t['alive'].dom = z3.Store(t['alive'].dom, ch, z3.BoolVal(False))
     return chn
@@ -245,7 +245,7 @@ def copy_method(ex, cp, name, args, kwargs, node_ast):
   if name == 'values':
     from pyvc.exec import Iter
     ex.path.oblige(f'{ex.contract.qual}/tree/values_of_a_copy_without_terminal_key'
-                   f'#{node_ast.lineno}', z3.Not(cp.has_term))
+                   f'#{ex.at(node_ast)}', z3.Not(cp.has_term))
     n, keys, idx = children(ex, nd)
     ex.path.ghost['last_children'] = (nd, n, keys, idx)
     it = Iter(n, lambda j: VNode(nd.tree, nd.child(keys[j])))
